@@ -217,6 +217,23 @@ struct R
     }
 };
 
+// rule functor returning a non-const lvalue reference to an object that outlives the call (an entry of a table the functor owns): the
+// library has to copy from it; logs "r<rule>(args)=<id of the persistent object>;" (a negative id: somebody moved from the table entry)
+template<int Rule, class T = V>
+struct RL
+{
+    static T& slot() { static T* s = new T(typename T::raw{}, 900000L + Rule); return *s; }
+    template<class... A>
+    T& operator()(A&&... a) const
+    {
+        S.ev += "r"; put(Rule); S.ev += "(";
+        (describe(std::forward<A>(a)), ...);
+        T& v = slot();
+        S.ev += ")="; put(v.id); S.ev += ";";
+        return v;
+    }
+};
+
 // contexts
 struct Ctx
 {
